@@ -103,9 +103,21 @@ func runCompile(w *harness.W, f wx.CompileFamily) {
 	evals := int64(0)
 	for k := 1; k <= f.Max; k++ {
 		p := f.Gen(k)
-		t := measure(0, func() { coregex.Compile(p) })
-		prev[k] = t
+		// work limit: generous for any polynomial compiler (64x the previous size's work plus a constant), so that a
+		// compilation that blows up (exponentially many literal variants, say) is stopped by a deterministic count —
+		// a verdict, not a time-out — before it exhausts memory
+		limit := int64(50_000_000)
+		if k > 1 && prev[k-1] > 0 {
+			limit = 64*prev[k-1] + 5_000_000
+		}
+		t := measure(limit, func() { coregex.Compile(p) })
 		evals++
+		if t < 0 {
+			w.Fail(&harness.Case{Op: "Compile", Mode: "work", Pattern: "compile family " + f.Name, Hay: strconv.Quote(fmt.Sprintf("size %d", k)), Want: "W(k) <= 64*W(k-1) + c", Got: "compile work limit exceeded", Cluster: "compile",
+				Extra: map[string]string{"W(k-1)": fmt.Sprint(prev[k-1]), "limit": fmt.Sprint(limit)}})
+			break
+		}
+		prev[k] = t
 		if k%2 == 0 && k >= 8 {
 			half := prev[k/2]
 			if t > 8*half+20000 {
